@@ -158,17 +158,10 @@ class HexaryTrie:
                 #   be pointing to a value that doesn't exist.
                 return BLANK_NODE
         elif node_type == NODE_TYPE_EXTENSION:
-            if len(remaining_key) > 0:
-                # Any remaining key should have traversed down into the extension's
-                # child. (or returned a blank node if the key didn't
-                # match the extension)
-                raise ValidationError(
-                    "Traverse should never return an extension node "
-                    "with remaining key, "
-                    f"but returned node {node!r} with remaining key {remaining_key}."
-                )
-            else:
-                return BLANK_NODE
+            # Either the key ended exactly at the extension node, or it ended
+            # part-way down the extension's path (a remaining key is returned by
+            # _traverse_from in that case). There is no value in both cases.
+            return BLANK_NODE
         elif node_type == NODE_TYPE_BRANCH:
             if len(remaining_key) > 0:
                 # Any remaining key should have traversed down into the branch's child,
